@@ -102,6 +102,13 @@ def oracle_c05(case, out):
     """case: generator dict; out: findlib.run_replace(...) record. Returns (None | text, stats)."""
     stats = {"inserted": 0, "wrapped": 0, "matches": 0}
     if "ok" not in out:
+        if out.get("err") == "overlap" and out.get("found"):
+            # two found matches share a structure atom: refusing them is the documented behaviour (property C07), not a
+            # placement failure; such an input is outside what C05 speaks about
+            idx = [set(t) for t in out["found"][0]]
+            if any(idx[i] & idx[j] for i in range(len(idx)) for j in range(i + 1, len(idx))):
+                stats["overlapping_matches"] = True
+                return None, stats
         return "replacement raised %s" % out.get("err"), stats
     if not out.get("inputs_unchanged", True):
         return "replace_pattern_in_structure modified one of its inputs", stats
